@@ -116,7 +116,7 @@ def gen_env(rng, t):
 
 
 def gen_history(rng, maxlen=40, risky=0.03, files=False, clone_p=0.03, into_p=0.0, coll_p=0.0, max_objs=3,
-                classes=None, reload_p=0.17, levels=False, focus=0.0, dictwrites=True, share_p=0.0, srcedit_p=0.0, shapes=True):
+                classes=None, reload_p=0.17, levels=False, focus=0.0, dictwrites=True, share_p=0.0, srcedit_p=0.0, shapes=True, proxy_ok=True):
     """random history guided by a reference simulation (independent of the implementation)"""
     ops = [{"o": 0, "op": "NEW", "defaults": tree(rng), "overrides": tree(rng, dens=0.3)}]
     if files:
@@ -291,7 +291,7 @@ def gen_history(rng, maxlen=40, risky=0.03, files=False, clone_p=0.03, into_p=0.
                 if not op.get("via_coll") and "share" not in op:
                     held[(op["o"], op["slot"])] = op["data"]
             if op["op"] == "UPD" and "m" in op and shapes:
-                op["shape"] = rng.choice(SHAPES_IN_USE)
+                op["shape"] = rng.choice(SHAPES_IN_USE if proxy_ok else cfglib.UPDATE_SHAPES)
             ops.append(op)
             try:
                 if op["op"] == "CLONE":
@@ -355,7 +355,7 @@ def gen_handle_history(rng, maxlen=24, files=False, clone_p=0.1, levels="nofiles
     # (no dict-valued writes here: a written dict is stored BY REFERENCE in the modifications and, until the next
     # re-merge, in the cache object - a stale handle would alias it; the cached model copies values)
     base = gen_history(rng, maxlen=maxlen, risky=0.02, files=files, clone_p=clone_p, max_objs=3, reload_p=0.2, levels=levels,
-                       focus=0.6, dictwrites=False, share_p=0.1)
+                       focus=0.6, dictwrites=False, share_p=0.1, proxy_ok=False)
     out, refs, handles = [], [], []
 
     def weave():
